@@ -29,12 +29,16 @@ func main() {
 		dumpKeys = flag.Bool("dump-keys", false, "print key sinks and templates")
 		verbose  = flag.Bool("v", false, "print every obligation")
 		manifest = flag.Bool("manifest", false, "print MANIFEST.json generated from the property table")
+		rulesMD  = flag.Bool("rules-md", false, "print the rules serving each property, with their one-line documentation, as markdown")
 		rulesOf  = flag.String("rules-of", "", "print a regexp matching the rules serving a property")
 		selfJSON = flag.String("selftest-json", "", "self-test result file to embed into the evidence (thorough tier)")
 	)
 	flag.Parse()
 	if *manifest {
 		os.Exit(printManifest())
+	}
+	if *rulesMD {
+		os.Exit(printRulesMD())
 	}
 	if *rulesOf != "" {
 		p, ok := propertyTable()[*rulesOf]
